@@ -64,12 +64,56 @@ def scenario(kind, seed, n_agents, steps, tsize, interleave=False):
     return traj
 
 
+class KwModel:
+    """Model factory for batch determinism: the seed travels through **kwargs to the base Model (module level: picklable)."""
+    def __new__(cls, n_agents=4, **kwargs):
+        from ECAgent.Core import Model, Agent
+        from ECAgent.Collectors import Collector
+
+        class _M(Model):
+            def __init__(self, n_agents=4, **kw):
+                super().__init__(**kw)
+
+        class Rec(Collector):
+            def collect(self):
+                env = self.model.environment
+                pick = env.get_random_agent()
+                self.records.append((pick.id if pick else None, [a.id for a in env.shuffle()],
+                                     round(self.model.random.random(), 9)))
+        m = _M(n_agents, **kwargs)
+        for i in range(n_agents):
+            m.environment.add_agent(Agent(f'agent{i}', m))
+        m.systems.add_system(Rec('rec', m))
+        return m
+
+
+def batch_trajectories(seed, n_agents, steps, procs):
+    import ECAgent.Batching as B
+    direct = KwModel(n_agents, seed=seed)
+    for _ in range(steps):
+        direct.execute()
+    want = list(direct.systems['rec'].records)
+    got = B.batch_run(KwModel, {'n_agents': [n_agents], 'seed': [seed]}, collectors='rec', processes=procs,
+                      max_timesteps=steps, repetitions=2)
+    return want, got
+
+
 def digest(traj):
     return hashlib.sha256(json.dumps(traj, sort_keys=True).encode()).hexdigest()
 
 
 def run_history(h, props=None):
     import numpy as np
+    if h[0] == 'batchdet':
+        _, seed, n_agents, steps, procs = h
+        try:
+            want, got = batch_trajectories(seed, n_agents, steps, procs)
+        except Exception as ex:
+            return [('C07', f'batch determinism case {h}: {type(ex).__name__}: {ex}')]
+        bad = [k for k, g in enumerate(got) if [tuple(x) if not isinstance(x, tuple) else x for x in g] != want
+               and [list(map(_norm, x)) for x in g] != [list(map(_norm, x)) for x in want]]
+        return [('C07', f'seed {seed} passed through batch_run (processes={procs}): repetition(s) {bad} differ from the model '
+                        f'built directly with the same seed')] if bad else []
     _, kind, seed, n_agents, steps, tsize = h[:6]
     cross = len(h) > 6 and h[6]
     out = []
@@ -100,8 +144,15 @@ def run_history(h, props=None):
     return out
 
 
+def _norm(x):
+    return list(x) if isinstance(x, (list, tuple)) else x
+
+
 def histories(seed, budget, prop='C07'):
     rng = random.Random(seed)
+    for s_ in (0, 7):
+        yield ('batchdet', s_, 4, 3, 1)
+    yield ('batchdet', 11, 5, 2, 2)
     for kind in ('plain', 'grid', 'space'):
         for s in (0, 1, 30):
             for tsize in (0, 1, 2):
